@@ -177,6 +177,35 @@ def run(ctx: Ctx) -> None:
                               {**case, "order": order})
         if (sch._full_schedule.get("schedule") if sch._full_schedule else None) != days:
             ctx.violation("reassembly-incomplete", "all fragments were received but no schedule resulted", {**case, "order": order})
+        # what was decoded / reassembled belongs to whoever asked: after the reassembly above (which marks a hot-water schedule in place) and after an
+        # application has edited the schedule it was handed, decoding the SAME fragments again -- directly, and in a fresh object -- gives the
+        # schedule the fragments encode
+        import copy  # noqa: PLC0415
+        want = copy.deepcopy(full)
+        for victim in (back, sch._full_schedule):
+            try:
+                if victim and victim.get("schedule"):
+                    victim["schedule"][0]["switchpoints"] = []
+                    victim["zone_idx"] = "0F"
+            except Exception:  # noqa: BLE001
+                pass
+        again = S.fragz_to_full_sched(frs)
+        if again != want:
+            ctx.violation("decode-depends-on-earlier-results", "decoding the same fragments again, after an earlier result was edited in place (by the reassembly itself or by its "
+                          "caller), yields a schedule other than the one the fragments encode", {**case, "decoded": str(again)[:300]})
+        sch_b = S.Schedule.__new__(S.Schedule)
+        sch_b.idx = "HW" if dhw else idx
+        sch_b._full_schedule = {}
+        sch_b._payload_set = [None]
+        for n in range(len(frs)):
+            sch_b._payload_set = sch_b._update_payload_set(sch_b._payload_set, {"frag_number": n + 1, "total_frags": len(frs), "fragment": frs[n]})
+        if (sch_b._full_schedule.get("schedule") if sch_b._full_schedule else None) != days:
+            ctx.violation("reassembly-depends-on-earlier-results", "a fresh object reassembling the same fragments, after an earlier result was edited in place, does not "
+                          "report the schedule the fragments encode", {**case})
+        sch._full_schedule = {}
+        sch._payload_set = [None]
+        for n in range(len(frs)):       # the first object again holds the schedule (the next step starts from there)
+            sch._payload_set = sch._update_payload_set(sch._payload_set, {"frag_number": n + 1, "total_frags": len(frs), "fragment": frs[n]})
         # ... and the SAME object then receives the packets of a changed schedule (any order, repeats): once all have arrived it holds the new one
         days2 = gen_schedule(rng, dhw)
         try:
